@@ -366,9 +366,20 @@ def detect_fixes(src):
         "negIndexStore": bool(re.search(r"<\s*0|unsigned|uint32_t|size_t", vec_set)) and
                          bool(re.search(r"<\s*0|unsigned|uint32_t\s+\w+\s*=|size_t\s+\w+\s*=", str_set)),
         # float -> uint32/uint64 conversion of an out-of-range value in intValue()/longValue()
+        # floattoStr: `(int32_t)num`, terminator written behind uninitialised bytes
+        "floatStr": float_str_fixed(),
         "floatCast": all(bool(re.search(r"isnan|isfinite|floatTo|<\s*0|>=|lrint|static_cast<int64_t>|\(int64_t\)", kind_case_body(b, "Float"))) for b in (intv, longv)),
     }
     return flags
+
+
+def float_str_fixed():
+    src = strip_comments(read("src/Common/str.cpp"))
+    m = re.search(r"floattoStr\s*\(\s*float\s+num[^)]*\)\s*\{", src)
+    if not m:
+        return False
+    body = src[m.end() - 1:match_brace(src, m.end() - 1)]
+    return "(int32_t)num" not in body.replace(" ", "").replace("(int32_t)num", "(int32_t)num") and "printf" in body
 
 
 def lean_str(s):
